@@ -1003,3 +1003,147 @@ Proof. vm_compute. reflexivity. Qed.
 Example ex_history_run :
   run_history ex_history = [ROk (B "s1"); ROk (B "s2"); ROk []; ROk (B "t"); ROk (B "42"); ROk []].
 Proof. vm_compute. reflexivity. Qed.
+
+(* ------------------------------------------------------------------ members that collide after the lower-camel mapping:
+   unexported fields are invisible wherever they are declared, and the declaration order of the fields is immaterial *)
+
+Lemma field_members_exported fs : field_members (exported_fields fs) = field_members fs.
+Proof.
+  unfold field_members, exported_fields.
+  induction fs as [|[[n e] v] fs IH]; simpl; [reflexivity|].
+  destruct e; simpl; rewrite IH; reflexivity.
+Qed.
+
+Lemma conv_struct fs vm pm :
+  convert (GStruct fs vm pm) = VMap (build (conv_entries (field_members fs) ++ conv_entries (meth_members vm))).
+Proof. simpl. rewrite conv_fields, conv_meths. reflexivity. Qed.
+
+Theorem unexported_invisible fs vm pm :
+  convert (GStruct fs vm pm) = convert (GStruct (exported_fields fs) vm pm) /\
+  convert (GPtr (GStruct fs vm pm)) = convert (GPtr (GStruct (exported_fields fs) vm pm)) /\
+  members (GStruct fs vm pm) = members (GStruct (exported_fields fs) vm pm) /\
+  members (GPtr (GStruct fs vm pm)) = members (GPtr (GStruct (exported_fields fs) vm pm)).
+Proof.
+  assert (Hc : convert (GStruct fs vm pm) = convert (GStruct (exported_fields fs) vm pm))
+    by (rewrite !conv_struct, field_members_exported; reflexivity).
+  split; [exact Hc|].
+  split; [rewrite !conv_ptr, Hc; reflexivity|].
+  split; simpl; rewrite field_members_exported; reflexivity.
+Qed.
+
+Lemma find_last_lookup_nodup {A} k (l : list (bytes * A)) :
+  NoDup (keys l) -> find_last k l = lookup k l.
+Proof.
+  unfold keys. induction l as [|[k' v] l IH]; simpl; intros Hn; [reflexivity|].
+  inversion Hn as [|? ? Hni Hnd]; subst. rewrite (IH Hnd).
+  destruct (beqb k k') eqn:E.
+  - apply beqb_eq in E; subst k'.
+    destruct (lookup k l) eqn:El; [|reflexivity].
+    exfalso. apply Hni. apply (lookup_In_keys k l). eauto.
+  - destruct (lookup k l); reflexivity.
+Qed.
+
+Lemma find_last_fields_perm fs fs' k :
+  Permutation fs fs' -> NoDup (keys (field_members fs)) ->
+  find_last k (field_members fs) = find_last k (field_members fs').
+Proof.
+  intros Hp Hn.
+  assert (Hp' : Permutation (field_members fs) (field_members fs'))
+    by (unfold field_members; apply Permutation_flat_map; exact Hp).
+  assert (Hn' : NoDup (keys (field_members fs')))
+    by (unfold keys in *; eapply Permutation_NoDup; [apply Permutation_map; exact Hp'|exact Hn]).
+  rewrite (find_last_lookup_nodup k _ Hn), (find_last_lookup_nodup k _ Hn').
+  apply lookup_perm; assumption.
+Qed.
+
+Lemma first_hit_ext items items' cands :
+  (forall k, lookup k items = lookup k items') -> first_hit items cands = first_hit items' cands.
+Proof.
+  intros H. induction cands as [|c r IH]; simpl; [reflexivity|]. rewrite H, IH. reflexivity.
+Qed.
+
+Lemma eval_field_ext items items' n :
+  (forall k, lookup k items = lookup k items') ->
+  eval_step (Some (VMap items)) (Field n) = eval_step (Some (VMap items')) (Field n).
+Proof.
+  intros H. simpl. unfold map_member. rewrite (first_hit_ext items items' _ H). reflexivity.
+Qed.
+
+Theorem declaration_order fs fs' vm pm :
+  Permutation fs fs' -> NoDup (keys (field_members fs)) ->
+  forall n,
+    go_member (GStruct fs vm pm) n = go_member (GStruct fs' vm pm) n /\
+    go_member (GPtr (GStruct fs vm pm)) n = go_member (GPtr (GStruct fs' vm pm)) n /\
+    eval_step (Some (convert (GStruct fs vm pm))) (Field n) =
+    eval_step (Some (convert (GStruct fs' vm pm))) (Field n) /\
+    eval_step (Some (convert (GPtr (GStruct fs vm pm)))) (Field n) =
+    eval_step (Some (convert (GPtr (GStruct fs' vm pm)))) (Field n).
+Proof.
+  intros Hp Hn n.
+  assert (Hf : forall k, find_last k (field_members fs) = find_last k (field_members fs'))
+    by (intros k; apply find_last_fields_perm; assumption).
+  assert (Hl : forall k, lookup k (build (conv_entries (field_members fs) ++ conv_entries (meth_members vm)))
+                       = lookup k (build (conv_entries (field_members fs') ++ conv_entries (meth_members vm)))).
+  { intros k. rewrite !lookup_build, !find_last_app, !find_last_conv, (Hf k). reflexivity. }
+  split; [unfold go_member; simpl members; rewrite !find_last_app, (Hf n); reflexivity|].
+  split; [unfold go_member; simpl members; rewrite !find_last_app, (Hf n); reflexivity|].
+  split.
+  - rewrite !conv_struct. apply eval_field_ext. exact Hl.
+  - rewrite !conv_ptr, !conv_struct. apply eval_field_ext.
+    intros k. rewrite !lookup_assign_all, (Hl k). reflexivity.
+Qed.
+
+(* what the guard in Map.convert is for: were every field stored (an unreadable one as Nil), an unexported field
+   declared after the exported field of the same lower-camel name would hide it *)
+Definition wit_pair_eu : list (bytes * bool * gv) :=
+  [(B "Title", true, GStr (B "Lamp")); (B "Price", true, GInt 12); (B "title", false, GStr (B "lamp")); (B "price", false, GInt 7)].
+Definition wit_pair_ue : list (bytes * bool * gv) :=
+  [(B "title", false, GStr (B "lamp")); (B "price", false, GInt 7); (B "Title", true, GStr (B "Lamp")); (B "Price", true, GInt 12)].
+
+Theorem unguarded_refuted :
+  exists fs fs' n v,
+    Permutation fs fs' /\ NoDup (keys (field_members fs)) /\
+    go_member (GStruct fs [] []) n = Some (MField v) /\ convert v <> VNil /\
+    lookup n (table_unguarded fs) = Some VNil /\ lookup n (table_unguarded fs') = Some (convert v).
+Proof.
+  exists wit_pair_eu, wit_pair_ue, (B "title"), (GStr (B "Lamp")).
+  split.
+  { unfold wit_pair_eu, wit_pair_ue.
+    apply Permutation_sym.
+    eapply Permutation_trans; [apply (Permutation_app_comm [_; _] [_; _])|]. apply Permutation_refl. }
+  split; [vm_compute; repeat constructor; simpl; intuition discriminate|].
+  split; [vm_compute; reflexivity|].
+  split; [discriminate|].
+  split; vm_compute; reflexivity.
+Qed.
+
+(* non-vacuity: the same colliding members in both declaration orders, by value, behind a pointer, in a list; an
+   unexported field next to its getter; an embedded type next to an outer field of its lower-camel name *)
+Definition ex_clash_data : gv :=
+  GMap [(B "page", GIface false (GStruct
+    [(B "Product", true, GStruct wit_pair_eu [] []);
+     (B "Rev", true, GPtr (GStruct wit_pair_ue [] []));
+     (B "Products", true, GSlice [GPtr (GStruct wit_pair_eu [] [])]);
+     (B "Account", true, GStruct [(B "holder", false, GStr (B "ann")); (B "Limit", true, GInt 500); (B "limit", false, GInt 1)]
+                                 [(B "Holder", B "func() string", GStr (B "holder:ann"))] []);
+     (B "Outer", true, GStruct [(B "Inner", true, GStruct [(B "Title", true, GStr (B "in"))] [] []);
+                                (B "inner", false, GStr (B "hid")); (B "Title", true, GStr (B "out"))] [] [])] [] []))].
+
+Definition ex_clash_paths : list (list step * bytes) :=
+  [([Field (B "page"); Field (B "product"); Field (B "title")], B "Lamp");
+   ([Field (B "page"); Field (B "product"); Field (B "price")], B "12");
+   ([Field (B "page"); Field (B "rev"); Field (B "title")], B "Lamp");
+   ([Field (B "page"); Field (B "rev"); Field (B "price")], B "12");
+   ([Field (B "page"); Field (B "products"); Idx false 0; Field (B "title")], B "Lamp");
+   ([Field (B "page"); Field (B "account"); Field (B "holder")], B "holder:ann");
+   ([Field (B "page"); Field (B "account"); Field (B "limit")], B "500");
+   ([Field (B "page"); Field (B "outer"); Field (B "inner"); Field (B "title")], B "in");
+   ([Field (B "page"); Field (B "outer"); Field (B "title")], B "out");
+   ([Field (B "page"); Field (B "product"); Field (B "Title")], []);
+   ([Field (B "page"); Field (B "outer"); Field (B "inner"); Field (B "x")], [])].
+
+Example ex_clash_dom : forallb (fun pt => dom_C11 ex_clash_data (fst pt) false) ex_clash_paths = true.
+Proof. vm_compute. reflexivity. Qed.
+Example ex_clash_run :
+  forallb (fun pt => match run ex_clash_data (fst pt) false with ROk t => beqb t (snd pt) | _ => false end) ex_clash_paths = true.
+Proof. vm_compute. reflexivity. Qed.
